@@ -5,8 +5,8 @@ import (
 	"go/ast"
 	"go/token"
 	"regexp"
-	"strconv"
 	"sort"
+	"strconv"
 	"strings"
 	"text/template/parse"
 )
